@@ -240,6 +240,7 @@ type vlpFrame struct {
 }
 
 type vlpEvent struct {
+	Conn   int    // distinguishes connections of one side (a duplicated Initial can create a second, short-lived server Conn)
 	Side   string // "client" / "server" (whose log this is)
 	Sent   bool
 	PType  string // initial, handshake, 1RTT, 0RTT
@@ -267,12 +268,15 @@ func (t *vlpTap) Observe(f func(ev *vlpEvent)) { t.observers = append(t.observer
 type vlpHandler struct {
 	tap  *vlpTap
 	side string
+	conn int
 }
+
+var vlpConnSeq atomic.Int64
 
 func (h *vlpHandler) Enabled(context.Context, slog.Level) bool { return true }
 func (h *vlpHandler) WithGroup(string) slog.Handler            { return h }
 func (h *vlpHandler) WithAttrs(attrs []slog.Attr) slog.Handler {
-	nh := &vlpHandler{tap: h.tap, side: h.side}
+	nh := &vlpHandler{tap: h.tap, side: h.side, conn: int(vlpConnSeq.Add(1))}
 	for _, a := range attrs {
 		if a.Key == "vantage_point" && a.Value.Kind() == slog.KindGroup {
 			for _, g := range a.Value.Group() {
@@ -304,7 +308,7 @@ func (h *vlpHandler) Handle(_ context.Context, rec slog.Record) error {
 	default:
 		return nil
 	}
-	ev := &vlpEvent{Side: h.side, Sent: sent}
+	ev := &vlpEvent{Side: h.side, Sent: sent, Conn: h.conn}
 	rec.Attrs(func(a slog.Attr) bool {
 		switch a.Key {
 		case "header":
